@@ -872,6 +872,19 @@ func main() {
 				}
 			}
 		}
+		// IPv6 literals whose zone carries a dotted fragment shorter than a quad (a VLAN sub-interface, a
+		// numeric scope): still no dotted quad anywhere in the text
+		for _, base := range []string{"fe80::1", "::", "::1", "::ffff:c0a8:164", "2001:db8::1", "fe80::c0a8:164"} {
+			for _, zone := range []string{"eth0.100", "1.2", "1.2.3", "0.0", "eth0.1.2", "a.b", "1.2.3.", "255.255.255", "bond0.4094"} {
+				for _, form := range []string{"%s%%%s", "[%s%%%s]"} {
+					b := fmt.Sprintf(form, base, zone)
+					set[b] = struct{}{}
+					for _, port := range []string{":0", ":1", ":60000", ":60001", ":65535"} {
+						set[b+port] = struct{}{}
+					}
+				}
+			}
+		}
 		g2 := make([]string, 0, len(set))
 		for s := range set {
 			g2 = append(g2, s)
@@ -885,6 +898,23 @@ func main() {
 			checkAll(s, &t)
 		}
 		t.flush()
+		// (G3) every string of length 0..8 (thorough 9) over {':','%','1','.'}: zoned literals, dotted
+		// fragments and their mixtures
+		maxG3 := 8
+		if r.Thorough() {
+			maxG3 = 9
+		}
+		var overlapG3 int64
+		nG3 := allStrings([]byte{':', '%', '1', '.'}, maxG3, func(s string, t *tally) {
+			checkAll(s, t)
+			if inA(s) {
+				gmu.Lock()
+				overlapG3++
+				gmu.Unlock()
+			}
+		})
+		r.Set("familyG3_zone_alphabet_strings", nG3)
+		distinct += nG3 - overlapG3
 		r.Set("familyG1_ipv6_alphabet_strings", nG1)
 		r.Set("familyG2_ipv6_spellings_of_ipv4", int64(len(g2)))
 		distinct += nG1 - overlapG + int64(len(g2))
@@ -1159,7 +1189,7 @@ func main() {
 	r.Rule(fmt.Sprintf("inputs = (A) every string of length 0..%d over {'1','2','.',':'} and of length 0..%d over {'0','1','6','.',':','x',' '}; "+
 		"(B) a.b.c.d+suffix with [B1] two octet positions over {0,1,9,10,99,100,199,255,256,999,00,01} (others fixed to 12.34.56.78) and [B3] each position over 0..255, each x %d port suffixes (none, boundary ports, 65536, 99999, leading zeros, signs, blanks, empty); "+
 		"[B2] all 65536 plain-decimal ports x %s address texts; [B4] %s; "+
-		"(G) every string of length 0..10 over {':','f','0'} (thorough: plus '1') and the hexadecimal IPv4-mapped / -compatible / NAT64 / 6to4 IPv6 spellings of 8 IPv4 addresses (13 spellings x bare / bracketed / zoned x 7 port suffixes): no dotted quad, must be rejected. "+
+		"(G) every string of length 0..10 over {':','f','0'} (thorough: plus '1') and the hexadecimal IPv4-mapped / -compatible / NAT64 / 6to4 IPv6 spellings of 8 IPv4 addresses (13 spellings x bare / bracketed / zoned x 7 port suffixes), IPv6 literals with 9 zones that carry dotted fragments shorter than a quad, every string of length 0..8 over {':','%','1','.'}: no dotted quad, must be rejected. "+
 		"(H) the names of the host's network interfaces, its host name and 18 common interface / host / service names x 3 forms x 6 port suffixes: rejected. "+
 		"(C) every string within edit distance %d (insert/delete/substitute over a 12-symbol alphabet incl. '[',']','%%','x',' ') of 6 valid addresses. "+
 		"Each input x 4 roles x {Parse, Set, UnmarshalJSON, MustParse}; String()->Parse and MarshalJSON->UnmarshalJSON for every accepted in-form input. (D) Set and UnmarshalJSON on receivers already holding each of 3 addresses x 6 ports (built with XxxAddrFrom, rule-violating ports included) x 29 texts incl. the receiver's own String(). (F) 15 texts in 6 JSON spellings (\\uXXXX escapes, surrounding white space) through encoding/json. (E) every ordered pair of 23 texts parsed one directly after the other through Parse, Set and UnmarshalJSON (JSON from one reused buffer). "+
